@@ -87,19 +87,19 @@ Qed.
 Theorem getfield_returns_view s x s' w l fl v :
   Inv s -> viewof s = Ok (l, fl, v) ->
   exec s (GetField rx (IConst x)) = Ok (s', w) ->
-  w = OVal (if f2i64 x =? 0 then l else field_at fl (f2i64 x)).
+  w = OVal (if float_to_int x =? 0 then l else field_at fl (float_to_int x)).
 Proof.
   intros HI Hv H. cbn [exec_op eval_idx rbind] in H.
-  destruct (getf s (f2i64 x)) as [[[s1 f] t]| | |] eqn:E1; cbn [rbind] in H; try discriminate.
+  destruct (getf s (float_to_int x)) as [[[s1 f] t]| | |] eqn:E1; cbn [rbind] in H; try discriminate.
   injection H as <- <-. f_equal.
   unfold view in Hv. destruct (ensure s) as [s2| | |] eqn:He; cbn [rbind] in Hv; try discriminate.
   injection Hv as <- <- <-.
-  destruct (f2i64 x =? 0) eqn:E0.
+  destruct (float_to_int x =? 0) eqn:E0.
   - apply Z.eqb_eq in E0. rewrite E0, get_field_zero in E1. injection E1 as <- <- _.
     destruct (ensure_ok rx all_matches am_sorted s HI) as [Hu|(s3 & He3 & _ & _ & Henv & _)]; [congruence|].
     assert (s3 = s2) by congruence. subst s3. destruct Henv as (E & _). symmetry. exact E.
   - apply Z.eqb_neq in E0.
-    destruct (get_field_spec rx all_matches am_sorted s s2 (f2i64 x) HI He E0) as (t' & Hg).
+    destruct (get_field_spec rx all_matches am_sorted s s2 (float_to_int x) HI He E0) as (t' & Hg).
     rewrite Hg in E1. injection E1 as _ <- _. reflexivity.
 Qed.
 
@@ -169,7 +169,7 @@ Proof. reflexivity. Qed.
 
 (* how the operations of a program reach the functions specified in FieldsInv.v *)
 Lemma exec_set_field_const s x t :
-  exec s (SetField rx (IConst x) t) = do s1 <- setf s (f2i64 x) t; Ok (s1, ONone).
+  exec s (SetField rx (IConst x) t) = do s1 <- setf s (float_to_int x) t; Ok (s1, ONone).
 Proof. reflexivity. Qed.
 
 Lemma exec_set_nf s v : exec s (SetNF rx v) = do s1 <- setnf s v; Ok (s1, ONone).
@@ -264,7 +264,9 @@ Proof.
       destruct (setf s0 k t); cbn [rbind]; congruence.
     + exfalso. exact (eval_idx_no_panic s i HI E0).
   - destruct (eval_idx rx all_matches s i) as [[s0 k]| | |] eqn:E0; cbn [rbind]; try discriminate.
-    exfalso. exact (eval_idx_no_panic s i HI E0).
+    + pose proof (set_field_no_panic s0 k t (Inv_eval_idx rx all_matches am_sorted _ _ _ _ HI E0)) as Hg.
+      destruct (setf s0 k t); cbn [rbind]; congruence.
+    + exfalso. exact (eval_idx_no_panic s i HI E0).
   - destruct (eval_idx rx all_matches s i) as [[s0 k]| | |] eqn:E0; cbn [rbind]; try discriminate.
     + pose proof (Inv_eval_idx rx all_matches am_sorted _ _ _ _ HI E0) as HI0.
       pose proof (get_field_no_panic s0 k HI0) as Hg.
@@ -393,7 +395,7 @@ Proof.
     injection H as <- _.
     exact (InvNF_set_field _ _ _ _ (Inv_eval_idx rx all_matches am_sorted _ _ _ _ HI E0) (InvNF_eval_idx _ _ _ _ HN E0) E1).
   - destruct (eval_idx rx all_matches s i) as [[s0 k]| | |] eqn:E0; cbn [rbind] in H; try discriminate.
-    destruct (setf s0 0 t) as [s1| | |] eqn:E1; cbn [rbind] in H; try discriminate.
+    destruct (setf s0 k t) as [s1| | |] eqn:E1; cbn [rbind] in H; try discriminate.
     injection H as <- _.
     exact (InvNF_set_field _ _ _ _ (Inv_eval_idx rx all_matches am_sorted _ _ _ _ HI E0) (InvNF_eval_idx _ _ _ _ HN E0) E1).
   - destruct (eval_idx rx all_matches s i) as [[s0 k]| | |] eqn:E0; cbn [rbind] in H; try discriminate.
@@ -474,7 +476,7 @@ Qed.
 Theorem reachable_getfield ops s : runs ops (init rx) = Ok s ->
   forall x s' w l fl v, viewof s = Ok (l, fl, v) ->
   exec s (GetField rx (IConst x)) = Ok (s', w) ->
-  w = OVal (if f2i64 x =? 0 then l else field_at fl (f2i64 x)) /\ viewof s' = viewof s.
+  w = OVal (if float_to_int x =? 0 then l else field_at fl (float_to_int x)) /\ viewof s' = viewof s.
 Proof.
   intros Hr x s' w l fl v Hv H. split.
   - exact (getfield_returns_view s x s' w l fl v (Inv_reachable rx all_matches am_sorted _ _ Hr) Hv H).
@@ -483,11 +485,53 @@ Qed.
 
 (* ---- getline $i ----------------------------------------------------------------- *)
 
-(* when the index is 0 the opcode does what the assignment does *)
-Theorem getline_field_partial s i t s0 :
-  eval_idx rx all_matches s i = Ok (s0, 0) ->
+(* getline $i, the record read being t, is the assignment $i = t *)
+Theorem getline_field_is_setfield s i t :
   exec s (GetlineField rx i t) = exec s (SetField rx i t).
-Proof. intros H. cbn [exec_op]. rewrite H. reflexivity. Qed.
+Proof. reflexivity. Qed.
+
+(* ---- huge indexes --------------------------------------------------------------- *)
+
+Lemma float_to_int_big m e : ftrunc m e > maxFieldIndex -> float_to_int (FFin m e) > maxFieldIndex.
+Proof.
+  intros H. cbn [float_to_int]. unfold maxFieldIndex in *.
+  destruct (two63 <=? ftrunc m e) eqn:E1; [unfold maxint, two63; lia|].
+  destruct (ftrunc m e <=? - two63) eqn:E2; [apply Z.leb_le in E2; unfold two63 in E2; lia|lia].
+Qed.
+
+(* $(x) = t with trunc(x) > maxFieldIndex is the "too large" error, however large x is *)
+Theorem setfield_huge s m e t :
+  ftrunc m e > maxFieldIndex ->
+  exec s (SetField rx (IConst (FFin m e)) t) =
+  Err (msg_field_too_large ++ dec_of_Z (float_to_int (FFin m e))).
+Proof.
+  intros H. rewrite exec_set_field_const.
+  rewrite set_field_too_large by (apply float_to_int_big; exact H). reflexivity.
+Qed.
+
+Lemma field_at_beyond fl i : zlen fl < i -> field_at fl i = [].
+Proof.
+  intros H. pose proof (zlen_nonneg fl) as H0. unfold field_at.
+  replace (i <? 1) with false by (symmetry; apply Z.ltb_ge; lia).
+  replace (i <? 1) with false by (symmetry; apply Z.ltb_ge; lia).
+  apply nth_overflow. unfold zlen in H. lia.
+Qed.
+
+(* reading $(x) with trunc(x) beyond the last field -- 2^63 and more included -- gives "" *)
+Theorem getfield_huge s m e s' w l fl v :
+  Inv s -> viewof s = Ok (l, fl, v) -> zlen fl < maxint ->
+  zlen fl < ftrunc m e ->
+  exec s (GetField rx (IConst (FFin m e))) = Ok (s', w) -> w = OVal [].
+Proof.
+  intros HI Hv Hlen Hbig H.
+  rewrite (getfield_returns_view s (FFin m e) s' w l fl v HI Hv H).
+  assert (zlen fl < float_to_int (FFin m e)) as Hi.
+  { cbn [float_to_int]. pose proof (zlen_nonneg fl).
+    destruct (two63 <=? ftrunc m e); [exact Hlen|].
+    destruct (ftrunc m e <=? - two63) eqn:E2; [apply Z.leb_le in E2; unfold two63 in E2; lia|exact Hbig]. }
+  replace (float_to_int (FFin m e) =? 0) with false by (symmetry; apply Z.eqb_neq; pose proof (zlen_nonneg fl); lia).
+  rewrite field_at_beyond by exact Hi. reflexivity.
+Qed.
 
 End Spec.
 
@@ -512,40 +556,4 @@ Proof.
   intros H.
   specialize (H unit no_matches [ReadRecord unit [97; 32; 98; 32; 99]; SetNF unit v_2_7]).
   vm_compute in H. specialize (H _ eq_refl eq_refl). discriminate H.
-Qed.
-
-(* getline $i assigns field i, at full strength *)
-Definition getline_field_full_statement : Prop :=
-  forall (rx : Type) (am : rx -> bytes -> list (Z * Z)) s i t,
-    exec_op rx am s (GetlineField rx i t) = exec_op rx am s (SetField rx i t).
-
-Theorem getline_field_refuted : ~ getline_field_full_statement.
-Proof.
-  intros H.
-  specialize (H unit no_matches (set_line unit (init unit) [97; 32; 98; 32; 99] false) (IConst (FFin 2 0)) [88]).
-  vm_compute in H. discriminate H.
-Qed.
-
-(* an index whose integer part exceeds maxFieldIndex is rejected, at full strength *)
-Definition setfield_huge_full_statement : Prop :=
-  forall (rx : Type) (am : rx -> bytes -> list (Z * Z)) s m e t,
-    ftrunc m e > maxFieldIndex ->
-    exists msg, exec_op rx am s (SetField rx (IConst (FFin m e)) t) = Err msg.
-
-Theorem setfield_huge_refuted : ~ setfield_huge_full_statement.
-Proof.
-  intros H.
-  destruct (H unit no_matches (init unit) 1 100 [120]) as [msg Hm].
-  - vm_compute. reflexivity.
-  - vm_compute in Hm. discriminate Hm.
-Qed.
-
-(* ... and it is, as long as the integer part fits an int64 *)
-Theorem setfield_huge_partial :
-  forall (rx : Type) (am : rx -> bytes -> list (Z * Z)) s m e t,
-    ftrunc m e > maxFieldIndex -> in_i64 (ftrunc m e) = true ->
-    exec_op rx am s (SetField rx (IConst (FFin m e)) t) = Err (msg_field_too_large ++ dec_of_Z (ftrunc m e)).
-Proof.
-  intros rx am s m e t Hbig Hfit. cbn [exec_op eval_idx rbind f2i64]. rewrite Hfit.
-  rewrite set_field_too_large by exact Hbig. reflexivity.
 Qed.
